@@ -102,6 +102,7 @@ STATEMENT_STATUS: Dict[str, str] = {
                             "regenerated from cmapdb.py",
     "unicode_map_from_cidsysteminfo": "proved: from the raw CIDSystemInfo (any surrounding white space) a font without "
                                       "ToUnicode reads the table Registry-Ordering of its CMap's writing mode",
+    "usecmap_def_ignored": "proved: /Name usecmap and /Key value def leave map and operand stack unchanged",
     "cidcoding_unknown": "proved: missing / ill-typed Registry and Ordering read as unknown-unknown",
     "cidchar_map": "proved (handler level): cid <code> pairs -> cid maps to the UTF-16BE text of the string",
     "cidrange_map": "proved (handler level): <lo> <hi> cid -> cid+i maps to the text of code lo+i (carry form), no "
